@@ -97,3 +97,12 @@ CASES += [
     t("kinds of time arguments listed in another order", 
       "            elif isinstance(time, (list, numpy.ndarray, tuple, TimeAxis)):", "            elif isinstance(time, (TimeAxis, tuple, list, numpy.ndarray)):"),
 ]
+
+CASES += [
+    m("at() hands out a view of the stored array (the repaired defect)", "C08-E",
+      "            return SuperOperator(data=self.data[ti, :, :, :, :].copy())", "            return SuperOperator(data=self.data[ti, :, :, :, :])"),
+    m("at() returns the neighbouring slice", "C08-E",
+      "            return SuperOperator(data=self.data[ti, :, :, :, :].copy())", "            return SuperOperator(data=self.data[ti+1, :, :, :, :].copy())"),
+    t("copy made with numpy.array", 
+      "            return SuperOperator(data=self.data[ti, :, :, :, :].copy())", "            return SuperOperator(data=numpy.array(self.data[ti, :, :, :, :]))"),
+]
